@@ -2,12 +2,14 @@
 
 _H = {"middleware/blocklist": ["zz_verif_c18_*_test.go"]}
 _RW = {"middleware/blocklist": ["sync", "sync/atomic", "os"]}
+# C18/refresh: the start-up refresh goroutine's 1 s start delay is removed in the overlay copy (anchor-checked), nothing else
+_RF_PATCH = {"middleware/blocklist/updater.go": [["\t<-time.After(time.Second)\n", "\t// verif: start delay removed (unit C18/refresh drives this function as a scheduled thread)\n"]]}
 
 CHECK = {
     "level": "model_checking",
     "engines": ["space", "sched", "crash"],
     "technique": "bounded-exhaustive (list x name x qtype) comparison of the real BlockList/ServeDNS with a label-slice reference matcher; preemption-bounded schedule DFS (controlled scheduler over vsync/vatomic/vos) of concurrent Set/Remove/SetBatch/RemoveBatch with a set-model linearizability + file==memory + restart oracle and an every-scheduling-point crash-consistency monitor; crash-prefix / power-loss / fault-position enumeration of the real persist() file-operation log; bounded-exhaustive API histories over keys as a client can spell them, each followed by a restart and a member-by-member comparison",
-    "level_text": "Every list of <=3 entries (plain / *.wildcard / whitelist forms over names of depth <=3 on {a,b,notb,B}) is built through the real configuration path and compared on every query name of depth <=4 (incl. root, mixed case, label-boundary near misses) with a reference matcher written from the property text, for Exists() and for the ServeDNS reply inside a real middleware.Chain. Every schedule (<=2/3 preemptions) of 2-3 threads each doing one API mutation runs on the real code with mu, saveMu and every file operation as scheduling points; at quiescence the final list must be explained by an order of the operations, the file must list exactly the in-memory entries and a restart must match identically on the whole query alphabet; at every scheduling point the file on disk must be the last complete list. For sequential histories the file-operation log of the last persistence is expanded into every process-crash prefix and power-loss image, and every file operation is made to fail in turn. keys: every sequence of <=2 (thorough <=3) Set / Remove / SetBatch calls over 16 keys as an API client can spell them (mixed case, with/without final dot, wildcard forms, '#' and white space inside / before / after the name, hosts-file shaped keys, escaped dots, the root, '*.') on a real BlockList with a real directory; afterwards a fresh BlockList loads the directory with the package's own loader and must hold exactly the same members and answer Exists() identically on every key and on every name a lossy write/read could produce (field splits, comment cuts). A key the API refuses is simply absent from memory (allowed). escaped: every list of <=2 entries (plain / wildcard, + <=1 whitelist entry) over names of depth <=2 built from the labels {a, b, x\\.b, a\\.b, x\\\\} (labels containing a dot or a backslash, presentation form) x every query name of depth <=2 (thorough <=3) over the same labels, through the real configuration path, Exists and ServeDNS, against a reference that splits labels on unescaped dots only (cross-checked against the DNS library's splitter).",
+    "level_text": "Every list of <=3 entries (plain / *.wildcard / whitelist forms over names of depth <=3 on {a,b,notb,B}) is built through the real configuration path and compared on every query name of depth <=4 (incl. root, mixed case, label-boundary near misses) with a reference matcher written from the property text, for Exists() and for the ServeDNS reply inside a real middleware.Chain. Every schedule (<=2/3 preemptions) of 2-3 threads each doing one API mutation runs on the real code with mu, saveMu and every file operation as scheduling points; at quiescence the final list must be explained by an order of the operations, the file must list exactly the in-memory entries and a restart must match identically on the whole query alphabet; at every scheduling point the file on disk must be the last complete list. For sequential histories the file-operation log of the last persistence is expanded into every process-crash prefix and power-loss image, and every file operation is made to fail in turn. refresh: the one-off start-up refresh (the real refreshRemote, which re-reads the blocklist directory about a second after start while the API already serves; its start delay removed by an anchor-checked overlay patch, no remote lists configured) as one more scheduled thread against 1 API thread (every operation x 3 initial lists, preemption bound 2, thorough 3) and against 2 API threads (every multiset, bound 2, one initial list; thorough all three): same scheduling points and the persist unit's oracle unchanged - the refresh is a no-op in the reference, so the final list must be explained by an order of the API operations alone, the file must reload to exactly the in-memory list and must at every point be the last complete list. keys: every sequence of <=2 (thorough <=3) Set / Remove / SetBatch calls over 16 keys as an API client can spell them (mixed case, with/without final dot, wildcard forms, '#' and white space inside / before / after the name, hosts-file shaped keys, escaped dots, the root, '*.') on a real BlockList with a real directory; afterwards a fresh BlockList loads the directory with the package's own loader and must hold exactly the same members and answer Exists() identically on every key and on every name a lossy write/read could produce (field splits, comment cuts). A key the API refuses is simply absent from memory (allowed). escaped: every list of <=2 entries (plain / wildcard, + <=1 whitelist entry) over names of depth <=2 built from the labels {a, b, x\\.b, a\\.b, x\\\\} (labels containing a dot or a backslash, presentation form) x every query name of depth <=2 (thorough <=3) over the same labels, through the real configuration path, Exists and ServeDNS, against a reference that splits labels on unescaped dots only (cross-checked against the DNS library's splitter).",
     "level_note": "Trusted: the vsync/vatomic/vos shims (sequentially consistent; every vos call is a point and is logged right before it executes), the crashfs power-loss model (unsynced tails cut at write boundaries, namespace operations since the last directory fsync lost as a suffix), a tmpfs scratch directory. New() is reproduced without its `go refreshRemote()` goroutine (struct literal + loadInitial). Set/Remove/SetBatch/RemoveBatch persist synchronously on the caller's goroutine, so the managed threads call the real API.",
     "rule": "match: all subsets of <=3 (thorough: also <=4 on the depth<=2 pool) entries x all query names; 'nontrivial' = lists that block at least one query name and leave at least one unblocked; 'states' = distinct in-memory list states. persist: all multisets of 2 and 3 single-operation threads over the operation alphabet x initial lists, every schedule within the preemption bound; 'states' = distinct (scenario, final memory, results, persisted version) outcomes, 'nontrivial' = outcomes of scenarios with >=2 distinct outcomes. crash: all sequences of 1-3 (thorough 1-4) operations; every crash image of the last persistence; 'states' = distinct images, 'nontrivial' = images taken strictly inside the sequence with a temp file present; roundtrip: all lists of <=3 entries persisted by one SetBatch and restarted, 'nontrivial' = lists with >=2 members",
     "assumptions": [
@@ -31,6 +33,8 @@ CHECK = {
                     "budget_s": {"quick": 40, "thorough": 300}},
         "persist": {"pkg": "middleware/blocklist", "run": "TestVerifC18Persist", "harness": _H, "rewrite": _RW,
                     "gomaxprocs": 1, "budget_s": {"quick": 60, "thorough": 600}},
+        "refresh": {"pkg": "middleware/blocklist", "run": "TestVerifC18Refresh", "harness": _H, "rewrite": _RW, "patch": _RF_PATCH,
+                    "gomaxprocs": 1, "budget_s": {"quick": 60, "thorough": 400}},
         "crash": {"pkg": "middleware/blocklist", "run": "TestVerifC18Crash", "harness": _H, "rewrite": _RW,
                   "budget_s": {"quick": 45, "thorough": 400}},
     },
